@@ -235,6 +235,41 @@ pub fn main(args: &[String]) -> i32 {
             d.step(json!({"a": "disconnect", "e": "c", "r": 127}));
             d.drain(3);
         }
+        "fill" => {
+            // packets filled to every total around the payload limit (1380..1400 queued bytes incl. chunk
+            // headers), by two or three chunks, vital and not, sent and then resent after total loss
+            if !mode.init_online {
+                d.handshake();
+            }
+            for total in 1383usize..=1399 {
+                for kind in 0..3 {
+                    let (a, b, va, vb) = match kind {
+                        0 => (600usize, total - 600 - 6, true, true),
+                        1 => (300, total - 300 - 5, true, false),
+                        _ => (total - 7 - 6, 7, true, true),
+                    };
+                    if a > max_sz || b > max_sz {
+                        continue;
+                    }
+                    d.send(0, va, a);
+                    d.send(0, vb, b);
+                    d.step(json!({"a": "flush", "e": "c"}));
+                    if total % 4 == 0 {
+                        // lose it: the resend has to rebuild the same packet
+                        while !d.w.net[0].is_empty() {
+                            d.step(json!({"a": "drop", "from": "c", "i": 1}));
+                        }
+                        d.step(json!({"a": "advance", "d": 1000}));
+                        d.step(json!({"a": "tick", "e": "c"}));
+                        d.step(json!({"a": "advance", "d": 500}));
+                        d.step(json!({"a": "tick", "e": "c"}));
+                    }
+                    d.drain(6);
+                    d.step(json!({"a": "flush", "e": "s"}));
+                    d.drain(6);
+                }
+            }
+        }
         _ => {
             eprintln!("unknown scenario");
             return 2;
